@@ -361,7 +361,7 @@ def main(tier):
     if tier == 'replay':
         return replay_file(sys.argv[2])
     chk = Check('C17', 'model_checking', tier)
-    budget = 150 if tier == 'quick' else 900
+    budget = 150 if tier == 'quick' else 1800
     deadline_at = chk.t0 + budget
     try:
         root = scratch('c17')
